@@ -5,7 +5,9 @@ import (
 	"fmt"
 	"math"
 	"strconv"
+	"strings"
 	"time"
+	"unicode"
 
 	"github.com/evanoberholster/imagemeta/meta"
 	"github.com/evanoberholster/imagemeta/xmp/xmpns"
@@ -169,9 +171,58 @@ func parseGPSCoordinate(buf []byte) float64 {
 	return v
 }
 
-// parseString parses a []byte and returns a string
+// parseString parses a []byte and returns a string. The predefined entities
+// and the character references of XML ("&amp;", "&#38;", "&#x26;") are
+// replaced by the characters they stand for.
 func parseString(buf []byte) string {
-	return string(buf)
+	if bytes.IndexByte(buf, '&') < 0 {
+		return string(buf)
+	}
+	var sb strings.Builder
+	for i := 0; i < len(buf); {
+		if buf[i] == '&' {
+			if r, n := parseEntity(buf[i:]); n > 0 {
+				sb.WriteRune(r)
+				i += n
+				continue
+			}
+		}
+		sb.WriteByte(buf[i])
+		i++
+	}
+	return sb.String()
+}
+
+// parseEntity decodes the entity or character reference at the start of buf
+// and returns its character and length. Returns 0, 0 when there is none.
+func parseEntity(buf []byte) (rune, int) {
+	end := bytes.IndexByte(buf, ';')
+	if end < 2 || end > len("&#x10FFFF") {
+		return 0, 0
+	}
+	name := buf[1:end]
+	switch string(name) {
+	case "amp":
+		return '&', end + 1
+	case "lt":
+		return '<', end + 1
+	case "gt":
+		return '>', end + 1
+	case "quot":
+		return '"', end + 1
+	case "apos":
+		return '\'', end + 1
+	}
+	if name[0] == '#' {
+		base, digits := 10, name[1:]
+		if len(digits) > 0 && digits[0] == 'x' {
+			base, digits = 16, digits[1:]
+		}
+		if v, err := strconv.ParseUint(string(digits), base, 32); err == nil && v > 0 && v <= unicode.MaxRune {
+			return rune(v), end + 1
+		}
+	}
+	return 0, 0
 }
 
 // parseRational separates a string into a fraction.
